@@ -120,8 +120,15 @@ def reader_props(run, name, objs, n_streams):
             run.finding(key, msg, case)
 
 
+def _resolve(case):
+    if case.get('path'):
+        from harness import corpus
+        return corpus.resolve(case['path'])
+    return clsops.modelled()[case['cls']][0]
+
+
 def reader_case(case):
-    cls = clsops.modelled()[case['cls']][0]
+    cls = _resolve(case)
     records = [unhx(r) for r in case['records']]
     stream = b''.join(records)
     chunks = []
@@ -203,6 +210,69 @@ def handshake_over_records(run, n):
                             bad, len(hbuf), len(got), len(want)), case)
 
 
+def unmodelled_layers(run, tier):
+    """LDAP (BER through asn1crypto, outside the Lean model): every proper prefix of accepted messages - short- and
+    long-form lengths - on the real code, and the reader loop over concatenations; implementation-side only"""
+    try:
+        from harness import gen_extra
+    except ImportError:
+        return
+    import random as _random
+    pairs = gen_extra.ldap_pairs(_random.Random(run.seed), tier)
+    by_cls = {}
+    for cls, data in pairs:
+        try:
+            _, n = cls.parse_immutable(bytes(data))
+        except Exception:  # pylint: disable=broad-except
+            continue
+        if n != len(data):
+            continue
+        by_cls.setdefault(cls, []).append(bytes(data))
+    for cls, encs in by_cls.items():
+        name = cls.__name__
+        for b in encs:
+            cuts = range(len(b)) if len(b) <= 160 else sorted(set(list(range(16)) + [run.rng.randrange(len(b)) for _ in range(40)] +
+                                                                  [len(b) - 1, len(b) - 2, len(b) - 3]))
+            for k in cuts:
+                run.evaluations += 1
+                run.count('classes', name)
+                run.note_nontrivial((name, hx(b), k))
+                case = {'kind': 'prefix-impl', 'cls': name, 'path': '{}:{}'.format(cls.__module__, cls.__name__), 'data': hx(b), 'cut': k}
+                for key, msg in impl_prefix(cls, b, k):
+                    run.finding(key, msg, case)
+        for _ in range(20 if tier == 'quick' else 300):
+            pick = [run.rng.choice(encs) for _ in range(run.rng.randrange(1, 4))]
+            stream = b''.join(pick)
+            chunks = random_chunks(run.rng, stream)
+            run.evaluations += 1
+            run.count('reader_streams', name)
+            case = {'kind': 'reader', 'cls': name, 'path': '{}:{}'.format(cls.__module__, cls.__name__),
+                    'records': [hx(x) for x in pick], 'chunks': [len(c) for c in chunks]}
+            for key, msg in reader_case(case):
+                run.finding(key, msg, case)
+
+
+def impl_prefix(cls, full, k):
+    name = cls.__name__
+    try:
+        _, n = cls.parse_immutable(full[:k])
+        return [('prefix-accepted:' + name, '{}: prefix of {} of {} bytes of {} is accepted (n={})'.format(name, k, len(full), hx(full)[:120], n))]
+    except Exception as exc:  # pylint: disable=broad-except
+        line = err_line(exc)
+    parts = line.split(' ')
+    if parts[:2] != ['ERR', 'NotEnoughData']:
+        return [('prefix-error:{}:{}'.format(name, parts[1] if len(parts) > 1 else '?'),
+                 '{}: prefix of {} of {} bytes of {} gives {}'.format(name, k, len(full), hx(full)[:120], line[:120]))]
+    try:
+        m = int(parts[2])
+    except ValueError:
+        m = None
+    if m is None or not 1 <= m <= len(full) - k:
+        return [('missing-count:' + name, '{}: prefix {} of {}: bytes_needed={} but {} bytes are missing ({})'.format(
+            name, k, len(full), parts[2], len(full) - k, hx(full)[:200]))]
+    return []
+
+
 def run(run, driver_ok=True, deep=False):
     tier = 'thorough' if deep else run.tier
     per_class = 25 if tier == 'quick' else 400
@@ -244,6 +314,7 @@ def run(run, driver_ok=True, deep=False):
             for key, message in PrefixOracle.prop(case):
                 run.finding(key, message, case)
     handshake_over_records(run, 40 if tier == 'quick' else 1500)
+    unmodelled_layers(run, tier)
 
 
 def search(run, proof):
@@ -262,4 +333,6 @@ def replay(case):
         return PrefixOracle.prop(case)
     if case.get('kind') == 'reader':
         return reader_case(case)
+    if case.get('kind') == 'prefix-impl':
+        return impl_prefix(_resolve(case), unhx(case['data']), case['cut'])
     return []
